@@ -445,6 +445,59 @@ def hash_reads_what_eq_compares(ctx):
     ctx.require(m >= 1, "expected a dependent type class with its own equality")
 
 
+def equality_tells_lookalikes_apart(ctx):
+    """Every `__eq__` of the package, interpreted on two objects whose constituents are *different* objects that look
+    alike (same code, same name, same module): the two are unequal.  Types are keys of the method table, so two types
+    that compare equal are one registration."""
+    import itertools
+
+    from ..metainterp import HostInterp, Instance, Raised, Record
+
+    repo = ctx.repo
+    n = 0
+    for c in repo.all_classes():
+        eq = c.methods.get("__eq__")
+        if eq is None or len(eq.params) != 2:
+            continue
+        attrs = sorted(_attrs_read(eq))
+        if not attrs or len(attrs) > 4:
+            continue
+        methods = repo.raw_methods(c)
+        funcs = {k: g.node for k, g in eq.module.funcs.items() if g.parent is None and g.cls is None and not g.node.decorator_list}
+        code = Record(kind="one code object")
+
+        def lookalike():
+            return Record(__code__=code, __name__="check", __qualname__="factory.<locals>.check", __module__="m", __doc__=None, __defaults__=None, __kwdefaults__=None)
+
+        verdicts, shapes_tried = [], 0
+        for shape, differing in itertools.product(itertools.product(("object", "tuple"), repeat=len(attrs)), attrs):
+            a, b = Instance(c.name, methods), Instance(c.name, methods)
+            for at, sh in zip(attrs, shape):
+                # the two objects differ in one constituent and share the others
+                a.__dict__[at] = lookalike() if sh == "object" else (lookalike(),)
+                b.__dict__[at] = a.__dict__[at] if at != differing else (lookalike() if sh == "object" else (lookalike(),))
+            hi = HostInterp(methods, a, {}, globals_env={}, classes={}, functions=funcs)
+            shapes_tried += 1
+            try:
+                r = hi.call_function(methods["__eq__"], [a, b], {}, {})
+            except (AnalysisError, Raised, TypeError, AttributeError):
+                continue
+            verdicts.append(((shape, differing), r))
+        if not verdicts:
+            continue
+        n += 1
+        ctx.touch(eq)
+        bad = [(sh, r) for sh, r in verdicts if r is not NotImplemented and r]
+        ctx.ob(
+            f"{eq.key}:lookalikes-differ",
+            eq.loc(),
+            f"`{c.name}.__eq__` tells apart two objects built from different look-alike constituents ({', '.join(attrs)}; interpreted on {len(verdicts)} shapes)",
+            not bad,
+            f"two objects whose {bad[0][0][1] if bad else ''} are different functions/objects with the same code and name (everything else shared) compare equal: two types made by one factory (two deferred classes, two checks closed over different values) are one key of the method table, so one's method answers for the other",
+        )
+    ctx.require(n >= 3, "expected several interpretable __eq__ methods")
+
+
 # ---------------------------------------------------------------------------------------- merge precedence
 def definition_merge_overrides(ctx):
     """The view of all definitions merges the mixins in order, later ones overriding earlier ones, own last
@@ -1316,4 +1369,129 @@ def resolution_functions_are_not_memoised(ctx):
         f"none of the {len(clo)} functions behind the subtype test, the order function, the layer sorter and the key function is memoised process-wide",
         bad is None,
         (f"{bad[1]}: the answer for a pair of types is frozen the first time any function asks, so a class registered with an ABC (or given a method) later is never matched by functions built afterwards, and equal-but-different arguments share a key" if bad else ""),
+    )
+
+
+# ---------------------------------------------------------------------------------------- memos in per-call value checks
+def _paths(e, defs, params, seen=()):
+    """Access paths on the parameters that expression `e` depends on: 'fn', 'fn.__code__', ... (locals expanded through
+    their single definitions; a call depends on the whole of its arguments)."""
+    out = set()
+    if isinstance(e, ast.Name):
+        if e.id in params:
+            return {e.id}
+        if e.id in defs and e.id not in seen:
+            for d in defs[e.id]:
+                out |= _paths(d, defs, params, seen + (e.id,))
+        return out
+    if isinstance(e, ast.Attribute):
+        base = _paths(e.value, defs, params, seen)
+        if isinstance(e.value, (ast.Name, ast.Attribute)):
+            return {f"{b}.{e.attr}" for b in base}
+        return base
+    if isinstance(e, ast.Call) and call_name(e) == "getattr" and len(e.args) >= 2 and isinstance(e.args[1], ast.Constant):
+        base = _paths(e.args[0], defs, params, seen)
+        out = {f"{b}.{e.args[1].value}" for b in base} if isinstance(e.args[0], (ast.Name, ast.Attribute)) else set(base)
+        for a in e.args[2:]:
+            out |= _paths(a, defs, params, seen)
+        return out
+    for ch in ast.iter_child_nodes(e):
+        out |= _paths(ch, defs, params, seen)
+    return out
+
+
+def _memo_stores(fn, module_names):
+    """(statement, container name, key expression, value expression) for every store of the function into a
+    module-level container: `G[k] = v` (also chained `x = G[k] = v`) and `G.setdefault(k, v)`."""
+    out = []
+    for st in ast.walk(fn):
+        if isinstance(st, ast.Assign):
+            for t in st.targets:
+                if isinstance(t, ast.Subscript) and isinstance(t.value, ast.Name) and t.value.id in module_names:
+                    out.append((st, t.value.id, t.slice, st.value))
+        elif isinstance(st, ast.Call) and isinstance(st.func, ast.Attribute) and st.func.attr == "setdefault" and isinstance(st.func.value, ast.Name) and st.func.value.id in module_names and len(st.args) == 2:
+            out.append((st, st.func.value.id, st.args[0], st.args[1]))
+    return out
+
+
+def _uncovered(fn, st_key_value, params):
+    defs = {}
+    for x in ast.walk(fn):
+        if isinstance(x, ast.Assign):
+            for t in x.targets:
+                if isinstance(t, ast.Name):
+                    defs.setdefault(t.id, []).append(x.value)
+        elif isinstance(x, ast.AnnAssign) and isinstance(x.target, ast.Name) and x.value is not None:
+            defs.setdefault(x.target.id, []).append(x.value)
+    _, _, k, v = st_key_value
+    kp, vp = _paths(k, defs, params), _paths(v, defs, params)
+    return sorted(p for p in vp if not any(p == q or p.startswith(q + ".") for q in kp)), sorted(kp)
+
+
+_MEMO_EXAMPLE = """
+def check(fn, argt):
+    code = getattr(fn, "__code__", None)
+    try:
+        return TABLE[code]
+    except KeyError:
+        sig = TABLE[code] = extract(fn)
+        return sig
+"""
+
+
+def value_check_memos_are_keyed_on_what_they_read(ctx):
+    """A per-call value check of a dependent type (`check` / `__instancecheck__`, or a function made a type by the
+    check decorator) that stores into a module-level table stores under a key that determines everything the stored
+    value was computed from: otherwise the answer computed for one value is served for another."""
+    repo = ctx.repo
+    # the rule must recognise the memo idiom (kept positive example)
+    ex = ast.parse(_MEMO_EXAMPLE).body[0]
+    st = _memo_stores(ex, {"TABLE"})
+    if len(st) != 1 or _uncovered(ex, st[0], {"fn", "argt"})[0] != ["fn"]:
+        raise AnalysisError("memo rule no longer recognises its positive example")
+    dm = A.dependent_meta(repo)
+    deco = A.dependent_check_decorator(repo) if hasattr(A, "dependent_check_decorator") else None
+    checks = []
+    for c in repo.all_classes():
+        if any(x is dm for x in repo.class_mro(c)):
+            for name in ("check", "__instancecheck__"):
+                if name in c.methods:
+                    checks.append(c.methods[name])
+    for f in repo.all_funcs():
+        for d in f.node.decorator_list:
+            nm = dotted(d.func) if isinstance(d, ast.Call) else dotted(d)
+            if nm and nm.split(".")[-1] == "dependent_check":
+                checks.append(f)
+                for ch in f.children.values():
+                    pass
+    # classes made types by the decorator: their `check`
+    for c in repo.all_classes():
+        for d in c.node.decorator_list:
+            nm = dotted(d.func) if isinstance(d, ast.Call) else dotted(d)
+            if nm and nm.split(".")[-1] == "dependent_check" and "check" in c.methods and c.methods["check"] not in checks:
+                checks.append(c.methods["check"])
+    ctx.require(len(checks) >= 8, "expected the per-call value checks of the dependent types")
+    from .c14 import get_callgraph_for
+
+    cg = get_callgraph_for(ctx)
+    bad = None
+    n_stores = 0
+    for f in checks:
+        ctx.touch(f)
+        for g in cg.closure([f]):
+            if g.module.name.split(".")[-1] not in ("dependent",) and g is not f:
+                continue
+            module_names = set(g.module.assigns)
+            params = set(g.params)
+            for s in _memo_stores(g.node, module_names):
+                n_stores += 1
+                unc, kp = _uncovered(g.node, s, params)
+                if unc and bad is None:
+                    bad = (g.loc(s[0]), f"`{short(s[0], 60)}` in `{g.name}` (reached from the value check `{f.name}`) stores a value computed from {', '.join(unc)} under a key that only reads {', '.join(kp) or 'nothing of the arguments'}")
+    ctx.ob(
+        "dependent:value-check-memos-keyed-on-what-they-read",
+        bad[0] if bad else checks[0].loc(),
+        f"no per-call value check ({len(checks)} checks and what they call in their module) stores into a module-level table under a key that determines less than the stored value reads ({n_stores} stores)",
+        bad is None,
+        (f"{bad[1]}: two values that agree on the key but differ elsewhere get one answer - whether a value matches depends on which value was checked first" if bad else ""),
     )
